@@ -766,7 +766,7 @@ func TestVF_C28(t *testing.T) {
 		"per driver one fault-free run and, for EVERY bucket operation k of that run, runs with a fault at k (fail-stop|fail-once x mutation lost|applied-without-reply) each followed by re-invocation until success; " +
 		"oracle = online checker called by the fault bucket after every applied mutation, reading the in-memory bucket directly: every block whose meta.json is present has every file meta.json lists with the recorded size; a block whose deletion started with a deletion mark keeps the mark while any other object of it exists; " +
 		"evaluation = one inspected bucket state; distinct = (case, driver variant, fault mode, k) of runs in which the fault was really injected and a state with a visible meta.json (listing files) or an unfinished marked deletion was inspected")
-	n := r.N(12, 120)
+	n := r.N(9, 60)
 	r.Require(int64(n)*300, n*40)
 	r.Assume("an object becomes visible atomically (objstore contract; the in-memory bucket commits an upload in one step)")
 	r.Assume("crash at point k == the operation sequence stops after a prefix: every prefix is inspected online; fail-stop runs add the error/cleanup paths; real SIGKILL adds nothing for a bucket-state invariant and is not used")
